@@ -216,3 +216,68 @@ def nested_async_comprehension(replay):
     if hasattr(mod, 'recheck'):
         return mod.recheck(replay, fixed) is None
     return True
+
+
+def _ast_of(replay):
+    import ast, warnings
+    try:
+        with warnings.catch_warnings():
+            warnings.simplefilter('ignore')
+            return ast.parse(_text(replay))
+    except Exception:
+        return None
+
+
+def _scoped_walk(tree):
+    """yields (node, chain of enclosing scope nodes, innermost first)"""
+    import ast
+    SC = (ast.FunctionDef, ast.AsyncFunctionDef, ast.Lambda, ast.ClassDef, ast.GeneratorExp, ast.ListComp, ast.SetComp, ast.DictComp)
+
+    def rec(n, chain):
+        for c in ast.iter_child_nodes(n):
+            yield c, chain
+            yield from rec(c, ([c] + chain) if isinstance(c, SC) else chain)
+    yield from rec(tree, [])
+
+
+def await_in_generator_expression(replay):
+    """F44: an `await` whose innermost scope is a generator expression that is not inside an async function (CPython >= 3.7 makes the
+    generator expression an asynchronous one and accepts)"""
+    import ast
+    t = _ast_of(replay)
+    if t is None:
+        return False
+    for n, chain in _scoped_walk(t):
+        if isinstance(n, ast.Await) and chain and isinstance(chain[0], ast.GeneratorExp):
+            fn = next((s for s in chain if isinstance(s, (ast.FunctionDef, ast.AsyncFunctionDef, ast.Lambda))), None)
+            if not isinstance(fn, ast.AsyncFunctionDef):
+                return True
+    return False
+
+
+def yield_in_comprehension_before_38(replay):
+    """F45: a `yield` inside a comprehension / generator expression under a grammar < 3.8 (CPython 3.6 / 3.7 compile it: the comprehension's
+    own function scope becomes a generator; parso attributes the yield to the enclosing scope)"""
+    import ast
+    if tuple(map(int, replay.get('version', '3.10').split('.'))) >= (3, 8):
+        return False
+    t = _ast_of(replay)
+    if t is None:
+        return False
+    for n, chain in _scoped_walk(t):
+        if isinstance(n, (ast.Yield, ast.YieldFrom)) and chain and isinstance(chain[0], (ast.GeneratorExp, ast.ListComp, ast.SetComp, ast.DictComp)):
+            return True
+    return False
+
+
+def walrus_in_lambda_in_class_comprehension(replay):
+    """F46: an assignment expression inside a lambda that sits inside a comprehension of a class body (the lambda is its own scope: CPython accepts)"""
+    import ast
+    t = _ast_of(replay)
+    if t is None:
+        return False
+    for n, chain in _scoped_walk(t):
+        if isinstance(n, ast.NamedExpr) and chain and isinstance(chain[0], ast.Lambda) and \
+                any(isinstance(s, (ast.GeneratorExp, ast.ListComp, ast.SetComp, ast.DictComp)) for s in chain[1:]):
+            return True
+    return False
